@@ -126,6 +126,10 @@ def _zpad_native(x, width):
 
 def to_str_value(I, node, v, st):
     """str(v) / '%s' % v / '{}'.format(v): yields (st, SStr|Raise)"""
+    if isinstance(v, SIte):
+        for st1, v1 in I.force(st, v):
+            yield from to_str_value(I, node, v1, st1)
+        return
     if isinstance(v, SStr):
         yield st, v
     elif isinstance(v, SInt):
